@@ -473,18 +473,18 @@ class FieldTypeConstraint(Constraint):
         elif self.type == "referencePath"and not JSONPathChecker().is_reference_path(value):
              self.report(path, value, "a Reference Path", problems)
         elif self.type == "timestamp":
-            # Preprocess RFC3339 into template strptime format
-            if value[-1] == "Z":
-                date = value[:-1]
-            else:
-                date = value[:-6]
-
-            if "." not in date:
-                date = date + ".0"
-
             try:
+                # Preprocess RFC3339 into template strptime format
+                if value[-1] == "Z":
+                    date = value[:-1]
+                else:
+                    date = value[:-6]
+
+                if "." not in date:
+                    date = date + ".0"
+
                 datetime.strptime(date, "%Y-%m-%dT%H:%M:%S.%f")
-            except Exception as e:
+            except Exception as e:  # Also if value is not a (non-empty) string
                 self.report(path, value, "an RFC3339 timestamp", problems)
         elif self.type == "URI" and not (isinstance(value, str) and
                                          re.match(r"[a-z]+:", value)):
